@@ -9,7 +9,8 @@ import common as C
 
 # per property: workloads = list of (profile, wild, share of cases, extra args); relevant ops; minimum observations
 SPEC = {
-    "C01": dict(workloads=[("c01", False, 0.7, ["--maxdesc", "255"]), ("mixed", False, 0.3, ["--maxdesc", "255"])],
+    "C01": dict(workloads=[("c01", False, 0.6, ["--maxdesc", "255"]), ("mixed", False, 0.3, ["--maxdesc", "255"]),
+                           ("c01", False, 0.1, ["--maxdesc", "255", "--maxpts", "120", "--maxch", "60", "--maxsub", "20", "--maxops", "16"])],   # larger shapes
                 quick=480, thorough=6000, maxops=(36, 60),
                 relevant=("save", "load"), need={"c01_roundtrips": 300},
                 rule="distinct (operation,outcome) sequences of histories that ended in at least one judged save->load round trip"),
